@@ -32,13 +32,24 @@ def scenario(kind, cls, *, seed, hexform, level, rng):
     """One authentication scenario on a fresh client.  kind: first | expired | stored | live | genuine."""
     s = sched.Session(version=3, retries=3, seed=seed, target="ac", creds=creds(rng))
     try:
-        if kind in ("expired", "stored", "live"):
+        if kind in ("expired", "stored", "live", "implicit_expired", "implicit_closed"):
             s.call_auth("good", hexform=hexform, level=level)
             s.settle()
             s.call_send()
             s.settle()
-        if kind == "expired":
+        if kind in ("expired", "implicit_expired"):
             s.jumpauth()
+        if kind == "implicit_closed":
+            s.peerclose()
+        if kind.startswith("implicit"):
+            # the next command re-authenticates on its own with the stored credentials; the reply to THAT handshake is the one under test
+            s.call_send()
+            s.settle(hs=cls)
+            s.call_send()
+            s.settle()
+            s.call_send()
+            s.settle()
+            return {"events": s.trace, "steps": s.steps, "kind": kind, "cls": cls, "hex": hexform, "level": level}
         if kind == "genuine":
             s.call_auth("good", hexform=hexform, level=level)
             s.settle()
@@ -66,8 +77,12 @@ def sweep(ctx: Ctx):
     lens = [f"len:{n}" for n in range(0, 97) if n != 64]
     types = [f"type:{t}" for t in range(16) if t != 1]
     others = ["otherkey", "error", "none", "enc", "garbage", "long", "short"]
-    for cls in flips + lens + types + others:
+    lentypes = [f"lentype:{64 + n}:{n}" for n in range(1, 16)] + [f"lentype:{64 + n}:{h}" for n, h in ((1, 2), (16, 1), (32, 2), (5, 15), (0, 5), (0, 15))]
+    cuts = [f"cut:{n}" for n in range(1, 72)]
+    for cls in flips + lens + types + others + lentypes + cuts:
         plan.append(("first", cls))
+    for cls in (rng.sample(flips, 24) if q else flips) + (rng.sample(lens, 12) if q else lens) + types + others + (rng.sample(lentypes, 6) if q else lentypes) + (rng.sample(cuts, 8) if q else cuts):
+        plan.append((rng.choice(["implicit_expired", "implicit_closed"]), cls))
     for cls in (rng.sample(flips, 48) if q else flips) + (rng.sample(lens, 24) if q else lens) + types + others:
         plan.append(("expired", cls))
         if not q or rng.random() < 0.4:
@@ -158,8 +173,9 @@ def run(ctx: Ctx) -> int:
     return ctx.finish(
         rule="LanSession model with all handshake reply classes; TLC-simulated 3-call behaviours replayed; real-code sweep: random 64-byte tokens / "
              "32-byte keys (bytes and hex form) and nonces x {first authentication, re-authentication after the 12 h expiry, explicit "
-             "re-authentication of a live session, unknown credentials over stored ones} x {all 512 single-bit flips, lengths 0..96, type "
-             "nibbles 0..15, reply under another key, error packet, encrypted packet, silence} through Device.authenticate and LAN.authenticate, "
+             "re-authentication of a live session, unknown credentials over stored ones, the re-authentication a send performs on its own after key expiry / "
+             "a closed connection} x {all 512 single-bit flips, lengths 0..96, type nibbles 0..15, over-long replies with a pad count in the type byte, "
+             "replies cut off by the transport after 1..71 bytes, reply under another key, error packet, encrypted packet, silence} through Device.authenticate and LAN.authenticate, "
              "each followed by two exchanges with a prompt device; distinct = (situation, reply class, credential form, API level)",
         assumptions=["reading F12 (DESIGN 6.1): 'stays unauthenticated' binds handshakes begun unauthenticated; on a live session the forged reply "
                      "must not yield a new key or replace credentials",
